@@ -1219,8 +1219,8 @@ func c29ParseLongRef(s string) (kind string, n int, ok bool) {
 	return p[0], n, err == nil && n >= 0 && n <= 1<<20
 }
 
-// the lengths one kind is run at: thorough = eight fixed lengths from 31 to 4097 and two that move along the ladder
-// with the seed and the kind (the plain string: the whole ladder); quick =
+// the lengths one kind is run at: thorough = eight fixed lengths from 31 to 4097 and two (at most 10000 bytes) that move
+// along the ladder with the seed and the kind (the plain string: the whole ladder); quick =
 // just above the fresh scratch buffer and one more (at most 1100 bytes) that moves along the ladder with the seed
 // and the kind (the plain string: eight of them, from 32 bytes up to beyond 64 KiB)
 func (c *Ctx) c29LongLengths(kindIdx int, full bool) []int {
@@ -1229,8 +1229,14 @@ func (c *Ctx) c29LongLengths(kindIdx int, full bool) []int {
 		if full {
 			return ladder
 		}
+		mid := []int{}
+		for _, n := range ladder {
+			if n <= 10000 {
+				mid = append(mid, n)
+			}
+		}
 		rot := int((c.Seed%1000+1000)%1000)*7 + kindIdx*5
-		return []int{31, 32, 33, 64, 65, 129, 1025, 4097, ladder[rot%len(ladder)], ladder[(rot+len(ladder)/2)%len(ladder)]}
+		return []int{31, 32, 33, 64, 65, 129, 1025, 4097, mid[rot%len(mid)], mid[(rot+len(mid)/2)%len(mid)]}
 	}
 	if full {
 		return []int{32, 33, 65, 100, 200, 513, 4097, 70001}
@@ -1414,15 +1420,13 @@ const c29HangTimeout = 700 * time.Millisecond
 func c29RunRead(entry string, pass bool, rd io.Reader) string {
 	done := make(chan string, 1)
 	go func() { done <- c29RunReadInline(entry, pass, rd) }()
-	select {
-	case out := <-done:
+	if out, answered := hangWait(done, c29HangTimeout); answered {
 		return out
-	case <-time.After(c29HangTimeout):
-		key := fmt.Sprintf("%s/%v", entry, pass)
-		delete(c29Unmarshalers, key)
-		delete(c29Decoders, key)
-		return "hang"
 	}
+	key := fmt.Sprintf("%s/%v", entry, pass)
+	delete(c29Unmarshalers, key)
+	delete(c29Decoders, key)
+	return "hang"
 }
 
 func c29RunReadInline(entry string, pass bool, rd io.Reader) (out string) {
@@ -1723,11 +1727,17 @@ func (c *Ctx) c29WriteJob(cf *caseFile, j c29WJob) {
 	if j.format == "cte" {
 		fm = "WFcte"
 	}
-	cf.Add(cApp("WriteCase", ctor, fm, cBool(j.sw), "false", cList(evsCoq), cList(kinds), cList(runs)),
-		fmt.Sprintf("write %s sw=%v input=%s runs=%s", tag, j.sw, j.in.desc, strings.Join(human, " ")))
-	if len(passRuns) > 0 {
-		cf.Add(cApp("WriteCase", ctor, fm, cBool(j.sw), "true", cList(evsCoq), cList(kinds), cList(passRuns)),
-			fmt.Sprintf("write %s sw=%v pass-through-panics input=%s runs=%s", tag, j.sw, j.in.desc, strings.Join(passHuman, " ")))
+	if j.in.long != 0 && ncalls > 400 {
+		// (CTE writes some payloads element by element.) The oracle above has run; the case would only repeat, at a
+		// size coqc cannot read in reasonable time, what the same kind at a shorter length already compares
+		c.Dist("write/" + tag + "/no-case-too-many-calls")
+	} else {
+		cf.Add(cApp("WriteCase", ctor, fm, cBool(j.sw), "false", cList(evsCoq), cList(kinds), cList(runs)),
+			fmt.Sprintf("write %s sw=%v input=%s runs=%s", tag, j.sw, j.in.desc, strings.Join(human, " ")))
+		if len(passRuns) > 0 {
+			cf.Add(cApp("WriteCase", ctor, fm, cBool(j.sw), "true", cList(evsCoq), cList(kinds), cList(passRuns)),
+				fmt.Sprintf("write %s sw=%v pass-through-panics input=%s runs=%s", tag, j.sw, j.in.desc, strings.Join(passHuman, " ")))
+		}
 	}
 
 	// oracle only: the destination wrapped in a small bufio.Writer (an error of the wrapped writer during the
